@@ -468,5 +468,16 @@ theorem cfsplit_decides_of_inv {n : Nat} (G : SGraph) (hn : G.size = n) (hG : G.
     have := hf.vis _ (Nat.zero_le _) hp.1
     rw [hp.2] at this; exact this
 
+
+theorem cfsplit_size_of_inv {n : Nat} (G : SGraph) (hn : G.size = n) (hG : G.WF) (sptr scol : Array Nat)
+    (s0 : Split) (h0 : Inv n s0 n) :
+    ((List.range n).reverse.foldl (splitStep G sptr scol) (s0, false)).1.cf.size = n := by
+  have h : LoopInv n (s0, false) n := by unfold LoopInv; rw [if_neg (by simp)]; exact h0
+  have hf := splitLoop_inv G hn hG sptr scol n _ h
+  unfold LoopInv at hf
+  split at hf
+  · exact hf.1
+  · exact hf.sz_cf
+
 end RS
 end Amgcl
